@@ -585,6 +585,8 @@ class Harness:
             ghost = [g.obj for g in self.items if g.inside]
             if len(inside) != len(ghost) or any(not any(o is x for x in inside) for o in ghost):
                 self.fail("C02:contents-differ-from-ledger", {"inside": repr(inside), "ledger": repr(ghost)})
+        if "C05" in self.oracles and not kernel:
+            self.check_queue_order()
         if quiescent or not self.ad.timed:
             self.check_no_lost_wakeup()
 
@@ -604,6 +606,23 @@ class Harness:
             if a.prio > b.prio:
                 return False
         return a.seq < b.seq
+
+    def check_queue_order(self):
+        """C05 (mechanism named by the property: the waiting line itself): the store's queues hold the waiting requests in (priority, arrival) order"""
+        raw = self.ad.raw(self)
+        for kind, attr in (("put", "reserve_put_queue"), ("get", "reserve_get_queue")):
+            q = getattr(raw, attr, None)
+            if q is None:
+                continue
+            line = []
+            for ev in list(q):
+                t = next((t for t in self.toks if t.ev is ev), None)
+                if t is not None and t.kind == kind and t.state == "pending" and not t.ev.triggered:
+                    line.append(t)
+            for a, b in zip(line, line[1:]):
+                self.ctx.hit("C05:queue-order-checked")
+                if self.key_lt(b, a):
+                    self.soft("C05:waiting-line-not-in-priority-then-arrival-order", {"ahead": repr(a), "behind": repr(b)})
 
     def check_order(self, granted, still_pending):
         """C05: a token was granted while another stayed pending: granted must be ahead in (priority, arrival)."""
@@ -1027,6 +1046,12 @@ def _prefix_priority(h, N, side):
         toks = [h.do_reserve_put() for _ in range(m)]
         for t in toks:
             ctx.assume(t.state == "pending")
+        # some of the waiting producers give up, then a late request joins the line: it must not get ahead of an earlier one of its priority
+        if getattr(h, "late_put", False) and ctx.choice(2, "withdraw-and-late-request?"):
+            for t in toks[:-1]:
+                if ctx.choice(2, "withdraw?"):
+                    h.do_cancel(t)
+            h.do_reserve_put()
     return h
 
 
@@ -1071,7 +1096,7 @@ def _prefix_arrivals(h, N):
 
 
 def scenario(store, family, N=3, K=2, oracles=("C01", "C02", "C04", "C05", "C06"), cap_max=None, cap_fixed=None,
-             sym_prio=False, R2=2, USE=True, TR=True, twin=False, RMAX=9, S=2, EARLY=False, DRAIN=True, PROCS=1, POLL=False, ITEMS="plain"):
+             sym_prio=False, R2=2, USE=True, TR=True, twin=False, RMAX=9, S=2, EARLY=False, DRAIN=True, PROCS=1, POLL=False, ITEMS="plain", LATEPUT=False):
     """returns fn(ctx) exploring prefix(family, N) followed by K free calls on the given store."""
     def fn(ctx):
         ad = adapter(store)
@@ -1084,6 +1109,7 @@ def scenario(store, family, N=3, K=2, oracles=("C01", "C02", "C04", "C05", "C06"
                     sym_prio=sym_prio or family.startswith("prio"))
         h.early = EARLY
         h.item_kind = ITEMS
+        h.late_put = LATEPUT
         # POLL: can_put()/can_get() of the edge are called between any two calls of the history (they must be free of side effects)
         h.polls = (POLL if POLL == "one" else bool(POLL)) if getattr(ad, "edge", False) else False
         if h.polls:
